@@ -24,9 +24,9 @@ pub(super) fn execute_index_seek<'a, S: GraphSnapshot + 'a>(
     let prop_val = match val {
         Value::Null => nervusdb_api::PropertyValue::Null,
         Value::Bool(b) => nervusdb_api::PropertyValue::Bool(b),
-        Value::Int(i) => nervusdb_api::PropertyValue::Int(i),
-        Value::Float(f) => nervusdb_api::PropertyValue::Float(f),
         Value::String(s) => nervusdb_api::PropertyValue::String(s),
+        // Int and Float: `1 = 1.0` is true in Cypher but the two have different index keys,
+        // so an equality lookup on either key misses rows the filter accepts. Scan instead.
         _ => {
             return execute_plan(snapshot, fallback, params);
         }
